@@ -494,6 +494,11 @@ def check(ctx):
                     if via == "package":
                         row["via"] = "package"
                     batches[p].append(("vanished", (m, via, oneshot), row))
+    # a process the caller may not look at: exe() through the front end (with its guess from the command line)
+    for p in PLATFORMS:
+        if p != "windows" and "exe" in plat_out[p]["methods"]:
+            for e in ("EACCES", "EPERM"):
+                batches[p].append(("refused", ("exe", e), {"k": "refused", "m": "exe", "pid": 5, "e": e}))
     # NetBSD: the command line of a process the kernel answers EINVAL for
     if "cmdline" in plat_out["netbsd"]["methods"]:
         for state in ("zombie", "gone"):
@@ -637,6 +642,20 @@ def check(ctx):
                                  "result, not ESRCH) -> %r, expected NoSuchProcess(pid=5)"
                                  % (via, p, m, " inside the oneshot() block that had looked at it alive" if oneshot else "",
                                     {k: v for k, v in ans.items() if k != "log"}),
+                                 {"platform": p, "row": row, "answer": ans})
+            elif tag == "refused":
+                m, e = payload
+                ctx.case(("refused", p, m, e))
+                if ans.get("cls") == "RunnerError":
+                    raise core.Machinery("runner error on refused row: %s" % ans.get("text"))
+                sec = ans.get("second", {})
+                ok1 = ans.get("cls") == "AccessDenied" and ans.get("pid") == 5
+                ok2 = sec.get("cls") == "ok" and sec.get("val") == ans.get("fresh", {}).get("val")
+                if not ok1 or not ok2:
+                    ctx.disagree("conf:%s:refused:%s" % (p, m),
+                                 "%s.%s() through the front end with every native access refused (%s) -> %r; asked again once access "
+                                 "is granted -> %r (a new object: %r); expected AccessDenied(pid=5), then the answer a new object gets"
+                                 % (p, m, e, {k: v for k, v in ans.items() if k not in ("log", "second", "fresh")}, sec, ans.get("fresh")),
                                  {"platform": p, "row": row, "answer": ans})
             elif tag == "einval":
                 state, via, oneshot = payload
